@@ -190,11 +190,20 @@ fn enum_case(ctx: &mut Ctx, idx: u64) {
     };
     let shape: Vec<usize> = if ctx.thorough || shape.len() == 2 { shape.to_vec() } else { vec![3, 3, 2] };
     // clone kinds: shallow (shared lexer) / deep, chosen per clone
-    let deep: Vec<bool> = shape.iter().map(|_| rng.chance(1, 3)).collect();
-    // private reference runs
+    let deep: Vec<bool> = shape.iter().map(|_| rng.chance(1, 2)).collect();
+    // private reference runs: every reference engine is built from a factory of its own (own slicer, own lexer tables)
+    // and replays the base history, so that nothing at all is shared with the clones under test
     let mut plans = vec![];
     for &len in &shape {
-        let mut p = base.deep_clone();
+        let private = factory(&v, &FactoryOpts::default()).ok().and_then(|pf| {
+            let mut pm = matcher(&pf, &g).ok()?;
+            for &t in &hist0 {
+                pm.consume_token(t).ok()?;
+            }
+            Some(pm)
+        });
+        let Some(mut p) = private else { return };
+        ctx.rep.inc("private_factories_built");
         let (ops, res) = plan(&mut rng, &mut p, &v, len, &hot);
         plans.push((ops, res));
     }
@@ -289,7 +298,7 @@ fn thread_case(ctx: &mut Ctx, idx: u64) {
     // some clones are taken before the base computes further masks (lexer grows afterwards)
     let mut engines: Vec<(Matcher, bool)> = vec![];
     for i in 0..n_clones {
-        let deep = rng.chance(1, 4);
+        let deep = rng.chance(1, 2);
         engines.push((if deep { base.deep_clone() } else { base.clone() }, deep));
         if i == n_clones / 2 {
             let _ = base.compute_mask();
@@ -297,8 +306,17 @@ fn thread_case(ctx: &mut Ctx, idx: u64) {
     }
     // private references on deep clones, sequentially
     let mut plans = vec![];
-    for (e, _) in &engines {
-        let mut p = e.deep_clone();
+    for (_e, _) in &engines {
+        // private reference: own factory, base history replayed (nothing shared with the engines under test)
+        let private = factory(&v, &FactoryOpts::default()).ok().and_then(|pf| {
+            let mut pm = matcher(&pf, &g).ok()?;
+            for &t in &hist0 {
+                pm.consume_token(t).ok()?;
+            }
+            Some(pm)
+        });
+        let Some(mut p) = private else { return };
+        ctx.rep.inc("private_factories_built");
         let (ops, res) = plan(&mut rng, &mut p, &v, op_len, &hot);
         plans.push((ops, res));
     }
